@@ -282,8 +282,9 @@ def named(R, b, v, bs, sk, nf, sp, fields, container, variant_ident):
                 R.bad("C11.MAP", body, "field `%s` is finished with `%s`, the derive input says `%s`%s" % (f["ident"], got_f[1], wantm, where), b.span)
         R.add("C11.MAPLATE")
         ft = nf.final_test
-        if ft is None or ft["none"] is None or not v.dominates(ft["none"], nf.build["bb"]):
-            R.bad("C11.MAPLATE", body, "the value is built (and `map` functions run) although an error may have been accumulated%s" % where, b.span)
+        map_bbs = [x[2] for x in nf.build["fields"].values() if x is not None and len(x) > 2]
+        if ft is None or ft["none"] is None or not v.dominates(ft["none"], nf.build["bb"]) or not all(v.dominates(ft["none"], m) for m in map_bbs):
+            R.bad("C11.MAPLATE", body, "the value is built / `map` functions run although an error may have been accumulated%s" % where, b.span)
     # ----- C09: unknown keys
     deny = container["deny"]
     R.add("C09.FALLBACK")
